@@ -12,7 +12,8 @@ inductive POp
   | load (rep : Nat)       -- `tainted<T*> q = *pp`: the cell designated by `p` holds guest bits `rep`
   | addrOf                 -- `&*p`, `&tv`
   | cast                   -- sandbox_reinterpret_cast / const_cast / static_cast, to_opaque ∘ from_opaque
-  | field (off size : Nat) -- `&(p->f)`, `&(*pa)[i]`: offset `off` inside an aggregate of `size` bytes at `p`
+  | field (off size : Nat) -- `&(p->f)`: offset `off` inside an aggregate of `size` bytes at `p`
+  | elem (i : Int) (n stride : Nat) -- `&(*pa)[i]` for `pa : T(*)[n]`: bounds-checked index (C17), then designation
 deriving Repr
 
 /-- what the code computes -/
@@ -22,10 +23,12 @@ def stepPtr (k : Nat) (p : Nat) : POp → Option Nat
   | .addrOf => some p
   | .cast => some p
   | .field off _ => some ((p + off) % W64)                        -- no check in the code
+  | .elem i n stride => if 0 ≤ i ∧ i < n then some ((p + i.toNat * stride) % W64) else none   -- index check only
 
 /-- the designation is of a member of an aggregate that lies wholly inside the region -/
 def fieldOk (r : Region) (p : Nat) : POp → Prop
   | .field off size => p ≠ 0 ∧ off < size ∧ p + size ≤ r.base + 2 ^ r.k
+  | .elem _ n stride => p ≠ 0 ∧ 0 < stride ∧ p + n * stride ≤ r.base + 2 ^ r.k
   | _ => True
 
 def runPtr (k : Nat) : Nat → List POp → Option Nat
